@@ -261,6 +261,11 @@ def run(ctx):
             r.ok("%s: writes only the I/O objects it creates" % m.short)
     if n12 == 0:
         r.vacuous_ok = True
+    # ---------------------------------------------------------------- R13
+    r = ctx.rule("C17-R13", "OWNER", "'creating a predefined object / rendering twice': an object created once at import time (a module-level instance) is shared by every caller and "
+                 "every thread - no function configures it per call (attribute store, item store, mutating method); per-call settings belong to a per-call object", reference=0)
+    module_objects_rule(ctx, r)
+
     return ctx.results
 
 
@@ -417,6 +422,60 @@ def shared_objects_rule(ctx, rule_id, mod_pred, reference=None):
     return r
 
 
+IMMUTABLE_FACTORIES = ("compile", "namedtuple", "frozenset", "tuple", "object", "Lock", "RLock", "getLogger", "TypeVar", "local", "str", "int", "float", "bytes")
+
+
+def module_objects_rule(ctx, r, mod_pred=None):
+    """OWNER rule (shared with C14): module-level instances are not configured per call."""
+    p = ctx.p
+    n = 0
+    for mod in sorted(p.modules.values(), key=lambda m: m.name):
+        if mod_pred is not None and not mod_pred(mod.name):
+            continue
+        objs = {}
+        for name, val in mod.assigns.items():
+            if isinstance(val, ast.Call):
+                fn_ = val.func.attr if isinstance(val.func, ast.Attribute) else (val.func.id if isinstance(val.func, ast.Name) else None)
+                if fn_ is None or fn_ in IMMUTABLE_FACTORIES or _is_container(val):
+                    continue
+                # a class of the package / the standard library called at import time: one instance for the whole process
+                objs[name] = val
+        if not objs:
+            continue
+        failed = set()
+        for fi in [f for f in p.all_functions() if f.module is mod]:
+            local = set(fi.params) | {t.id for x in walk_no_nested(fi.node) if isinstance(x, ast.Assign) for t in x.targets if isinstance(t, ast.Name)}
+            declared_global = {g for x in walk_no_nested(fi.node) if isinstance(x, ast.Global) for g in x.names}
+            for x in walk_no_nested(fi.node):
+                hit = None
+                if isinstance(x, (ast.Attribute, ast.Subscript)) and isinstance(x.ctx, (ast.Store, ast.Del)):
+                    b = x.value
+                    while isinstance(b, (ast.Attribute, ast.Subscript)):
+                        b = b.value
+                    if isinstance(b, ast.Name) and b.id in objs and (b.id not in local or b.id in declared_global):
+                        hit = (b.id, x)
+                elif isinstance(x, ast.Call) and isinstance(x.func, ast.Attribute) and x.func.attr in q.MUTATORS:
+                    b = x.func.value
+                    while isinstance(b, (ast.Attribute, ast.Subscript)):
+                        b = b.value
+                    if isinstance(b, ast.Name) and b.id in objs and (b.id not in local or b.id in declared_global):
+                        hit = (b.id, x)
+                if hit:
+                    n += 1
+                    failed.add(hit[0])
+                    par = getattr(hit[1], "_parent", None)
+                    r.fail(fi, par if isinstance(par, (ast.Assign, ast.AugAssign, ast.Delete)) else hit[1], "%s.%s configured per call" % (mod.name.split("clikit.", 1)[-1], hit[0]),
+                           "%s sets up the module-level object %s (created once, `%s`) for its own call: two renders that overlap (threads), or a render interrupted half-way, work with "
+                           "each other's setting - e.g. one table is wrapped to the other table's width" % (fi.short, hit[0], norm(objs[hit[0]])[:50]))
+        for name in sorted(objs):
+            n += 1
+            if name not in failed:
+                r.ok("%s.%s: module-level instance, never configured by a function" % (mod.name.split("clikit.", 1)[-1], name))
+    if n == 0:
+        r.vacuous_ok = True
+        r.note("no module-level instances in the modules looked at")
+
+
 def _is_container(val):
     if isinstance(val, (ast.Dict, ast.List, ast.Set, ast.ListComp, ast.DictComp, ast.SetComp)):
         return True
@@ -474,7 +533,7 @@ def _reset_before_use(ctx, render, attr):
     return hit
 
 
-def memo_key_rule(ctx, r, only_module=None):
+def memo_key_rule(ctx, r, only_module=None, instance_level=False):
     """CACHEKEY rule (shared with C04 / C20 for the trace's snippet memo)."""
     p = ctx.p
     n_memo = 0
@@ -492,6 +551,27 @@ def memo_key_rule(ctx, r, only_module=None):
                                 and tg.value.value.id in ("self", "cls", ci.name):
                             n_memo += 1
                             _cachekey(ctx, r, m, n, tg)
+    if instance_level:
+        # memo idiom on an instance attribute: `if key not in self.X: self.X[key] = <value>`
+        from ..cfg import guarded_by
+        for ci in p.classes.values():
+            if only_module is not None and ci.module.name != only_module:
+                continue
+            for m in ci.methods.values():
+                mcfg = None
+                for n in walk_no_nested(m.node):
+                    if isinstance(n, ast.Assign) and len(n.targets) == 1 and isinstance(n.targets[0], ast.Subscript) and is_self_attr(n.targets[0].value) and n.targets[0].value.attr not in ci.attrs:
+                        tg = n.targets[0]
+                        mcfg = mcfg or ctx.cfg(m)
+                        key_txt = norm(tg.slice)
+                        g = None
+                        for cn in mcfg.nodes_of(n):
+                            g = g or guarded_by(mcfg, cn, lambda e: isinstance(e, ast.Compare) and len(e.ops) == 1 and isinstance(e.ops[0], ast.NotIn) and norm(e.left) == key_txt
+                                                and is_self_attr(e.comparators[0], tg.value.attr), polarity=True)
+                        if g is None:
+                            continue
+                        n_memo += 1
+                        _cachekey(ctx, r, m, n, tg)
     if n_memo == 0:
         r.vacuous_ok = True
         r.note("no class-level memo dictionaries are filled any more")
